@@ -374,7 +374,14 @@ fn main() {
                     eprintln!("harness error at case line {}: {}", n, m);
                     std::process::exit(2);
                 }
-                json!({"id": case["id"], "op": case["op"], "echo": case.get("echo"), "ret": format!("panic:{}", m)})
+                let mut o = Map::new();
+                o.insert("id".into(), case["id"].clone());
+                o.insert("op".into(), case["op"].clone());
+                if let Some(e) = case.get("echo") {
+                    o.insert("echo".into(), e.clone());
+                }
+                o.insert("ret".into(), json!(format!("panic:{}", m)));
+                Value::Object(o)
             }
         };
         serde_json::to_writer(&mut trace, &rec).unwrap();
